@@ -24,7 +24,7 @@ def sh(cmd, cwd=None, timeout=3600):
 def run_demo(mdir, meta):
     demo = os.path.join(mdir, "demo")
     if os.path.exists(os.path.join(demo, "run.sh")):
-        rc, out = sh("sh run.sh", cwd=demo)
+        rc, out = sh("bash run.sh", cwd=demo)
         return rc, out[-1500:]
     if os.path.exists(os.path.join(demo, "Cargo.toml")) and not os.path.exists(os.path.join(demo, "src", "main.rs")) \
             and os.path.isdir(os.path.join(demo, "tests")):
@@ -65,6 +65,11 @@ def main():
     shutil.rmtree(dst, ignore_errors=True)
     os.makedirs(dst)
     shutil.copy(patch, os.path.join(dst, "patch.diff"))
+    ported = os.path.join(mdir, "patch.ported.diff")
+    if os.path.exists(ported):
+        # ported by hand onto the current /repo HEAD (a later fix: commit rewrote the code the change sits in)
+        shutil.copy(patch, os.path.join(dst, "patch.orig.diff"))
+        shutil.copy(ported, os.path.join(dst, "patch.diff"))
     if os.path.isdir(os.path.join(mdir, "demo")):
         shutil.copytree(os.path.join(mdir, "demo"), os.path.join(dst, "demo"), ignore=shutil.ignore_patterns("target"))
     # a later fix: commit in /repo may have moved the context: rebase the stored patch onto /repo HEAD first
